@@ -429,9 +429,18 @@ func ZZ_C02_StatementValues(sv *zzsv.T) {
 		"foreach a in A { switch (a) { case 1 { STMT } default { STMT } } t(a); } return 7;",
 		"k = 0; while (k < len(A)) { a = A[k]; STMT t(a); k = k + 1; } return 7;",
 		"foreach a in A { t(a); STMT } foreach a in A { STMT t(a); } return 7;",
+		// the statement comes before the loop, and the loop's body calls a
+		// function that runs a loop of its own
+		"STMT foreach a in A { h(A); t(a); } return 7;",
+		"STMT foreach a in A { t(a); u = h(A); } return 7;",
+		"if (len(A) >= 0) { STMT foreach a in A { t(a); h(A); } } return 7;",
+		"function w(p) { STMT foreach a in p { h(p); t(a); } return 1; } u = w(A); return 7;",
+		"STMT STMT foreach i, a in A { foreach b in A { h(A); } t(a); } return 7;",
 	}
 	b := sv.Choice("body", len(bodies))
-	src := "function f(x) { return x; } "
+	src := "function f(x) { return x; } function h(p) { foreach q in p { z = q; } return 1; } "
+	// (statements that mention the loop variable are placed before the loop
+	// in the last five bodies: there they read the global `a`)
 	for i := 0; i < len(bodies[b]); i++ {
 		if i+4 <= len(bodies[b]) && bodies[b][i:i+4] == "STMT" {
 			src += st
@@ -447,7 +456,7 @@ func ZZ_C02_StatementValues(sv *zzsv.T) {
 		av.arr = append(av.arr, zInt(sv.Int64("el")))
 	}
 	var trace []object.Object
-	e, err := zzPrepare(sv, src, map[string]zv{"A": av}, []string{"A"}, sv.Choice("noopt", 2) == 1, &trace)
+	e, err := zzPrepare(sv, src, map[string]zv{"A": av, "a": zInt(1)}, []string{"A", "a"}, sv.Choice("noopt", 2) == 1, &trace)
 	sv.Assume(err == nil)
 	out, rerr := e.Execute(nil)
 	zzDescribe(sv, "result", out, rerr)
